@@ -2059,24 +2059,33 @@ def gen_select_block(node, code, codegen):
     if node.case_blocks:
         last_case = node.case_blocks[-1][0]
     for case, body in node.case_blocks:
+        # the record of a CASE statement is its test and the jump that
+        # acts on it (a record of the test alone made RESUME NEXT
+        # continue at that jump, with nothing to test), and the jump
+        # that ends its arm; the arm's statements have their own
         if codegen.debug_info_enabled:
             code.add(('_dbg_info_start', case))
 
         if case == last_case:
             next_case_label = end_label
         code.add(('_label', cur_case_label))
-        codegen.gen_code_for_node(case, code)
+        gen_part_of_stmt(case, code, codegen)
         code.add(('jz', next_case_label))
-
-        code.add(('_label', codegen.get_label('case_body')))
-        gen_code_for_block(body, code, codegen)
-        code.add(('jmp', end_label))
-
-        cur_case_label = next_case_label
-        next_case_label = codegen.get_label('case')
 
         if codegen.debug_info_enabled:
             code.add(('_dbg_info_end', case))
+
+        code.add(('_label', codegen.get_label('case_body')))
+        gen_code_for_block(body, code, codegen)
+
+        if codegen.debug_info_enabled:
+            code.add(('_dbg_info_start', case))
+        code.add(('jmp', end_label))
+        if codegen.debug_info_enabled:
+            code.add(('_dbg_info_end', case))
+
+        cur_case_label = next_case_label
+        next_case_label = codegen.get_label('case')
 
     code.add(
         ('_label', end_label),
@@ -2086,11 +2095,18 @@ def gen_select_block(node, code, codegen):
     assert block_context.kind == 'select'
 
 
+def gen_part_of_stmt(node, code, codegen):
+    # code for a node that is a part of a statement (a CASE clause,
+    # the test of a CASE statement): it gets no debug record of its
+    # own, its code belongs to the record of the statement
+    codegen.generator_funcs[type(node)](node, code, codegen)
+
+
 @QvmCodeGen.generator_for(stmt.CaseStmt)
 def gen_case_stmt(node, code, codegen):
-    codegen.gen_code_for_node(node.cases[0], code)
+    gen_part_of_stmt(node.cases[0], code, codegen)
     for case in node.cases[1:]:
-        codegen.gen_code_for_node(case, code)
+        gen_part_of_stmt(case, code, codegen)
         code.add(('or',))
 
 
